@@ -8,13 +8,16 @@ from . import replies, static
 
 NOTE = ("one rule-breaking edit per documented rule on valid hosts (MC_Static family `rule`) and every reply table of <= MaxM methods "
         "(MC_Reply family `tables`, valid or not) expanded in-process by the real macros; clean/dirty verdict judged by TLC against "
-        "Static/Reply!ValidTable")
+        "Static/Reply!ValidTable; the rule family is also compiled by rustc with the real macros (one crate, one module per item): every "
+        "rule-breaking item must fail with a diagnostic of the framework whose primary span lies in the offending method (or anywhere in the "
+        "item for item-level rules), every valid host must compile")
 
 
 def run(prop, tier, seed, replay):
     t0 = time.time()
     rep = common.Report(prop)
     p = static.pipeline(prop, tier, seed, ["rule"])
+    diags = static.rules_compile(p)
     v = static.validate(prop, p, rep)
     m, progs_path, tables_path = replies.model(tier)
     tv, ntab = replies.tables_inproc(prop, {"tables_path": tables_path}, rep)
@@ -23,7 +26,8 @@ def run(prop, tier, seed, replay):
     cov = {"states": p["model"]["distinct"] + m["distinct"], "transitions": p["model"]["generated"] + m["generated"],
            "traces_validated_against_impl": len(evs) + ntab,
            "rule_breaking_items": len([i for i in p["items"] if i["expect"] == "dirty"]), "valid_hosts": len([i for i in p["items"] if i["expect"] == "clean"]),
-           "reply_tables": ntab,
+           "reply_tables": ntab, "items_compiled_by_rustc": len(diags),
+           "diagnostics_seen": sum(len(d["errors"]) for d in diags),
            "samples": [{"rule": i["rule"], "source": __import__("gen.static", fromlist=["render"]).render(i)} for i in p["items"][:2]],
            "exhaustive": True, "explanation": NOTE}
     common.write_evidence(prop, tier, seed, cov, time.time() - t0, len(rep.violations))
